@@ -137,6 +137,31 @@ CHECKS["C09"] = dict(
     note=TB + "; link faults during bring-up are explored (exploration level), not proved here: the link is C01/C05's subject; the NCP simulator is an assumption about firmware",
 )
 
+CHECKS["C11"] = dict(
+    category="proof",
+    text=("Coq model of Gateway.reset/reset_received/wait_for_startup_reset/connection_lost/eof_received with upward calls delivered singly or "
+          "back to back in one loop iteration; theorems for every history: the reset request writes CANCEL+RST (bytes computed from the codec "
+          "model); a reset() returns normally only in a step that delivered RSTACK(software) while pending (all codes), and then does; any "
+          "other code goes to the failure path and completes no waiter; the timeout ends it; unsolicited RSTACKs change nothing; a loss or "
+          "EOF releases every pending waiter and leaves nothing pending; frame numbers are zero after RSTACK. Tied to the real Gateway/EZSP by "
+          "correspondence (all 256 codes in time, before/after/twice, losses at each step, batches), and to the real AshProtocol for the RST "
+          "bytes and counters from all 64 prior values."),
+    design_ref="DESIGN.md section 6 C11",
+    technique="Coq proof over event histories with same-iteration batches + model/implementation correspondence in virtual time",
+)
+CHECKS["C10"] = dict(
+    category="proof",
+    text=("Same gateway/facade model: for every state with an application callback and every batch containing a failure (reset code other than "
+          "software incl. ERROR and retry exhaustion, connection loss with an error, EOF) a controller-reset request is produced, EZSP is "
+          "stopped, the gateway released and the transport closed, commands raise at once; stays stopped; deliberate close and the "
+          "connection_lost(None) after it are silent; waiting commands end by their timeout (C06 model) and link sends by the retry budget "
+          "(C05). Correspondence with the real Gateway+EZSP at gateway level; the FULL stack (real ASH, virtual time) is explored with each "
+          "failure kind injected before and after every wire event of four workloads and judged by the property predicate."),
+    design_ref="DESIGN.md section 6 C10",
+    technique="Coq proof (gateway/facade model) + correspondence + full-stack fault injection at every wire event",
+    note=TB + "; the full-stack half is exploration (fault_enumeration level): positions sampled in the quick tier, all in thorough; threaded mode not covered",
+)
+
 NOT_YET = {}
 
 
